@@ -215,6 +215,8 @@ def one_case(ctx, index: int, rng: random.Random):
     with attach.quiet():
         ok = construct.check_h1(rec, h, flat, wflat, bins_arg=bins_arg if kind not in ("object", "prepared") else None,
                                 dtype=dtype, keep_missed=keep_missed, op="h1", detail=desc)
+        if ckind == "named" and h.name != "label":
+            rec.fail(monitor="C01.h1.post", op="h1", symptom="the (name, values) form did not name the histogram", diff=["name"], detail={"name": h.name})
         if kind in ("object", "prepared"):
             if not np.array_equal(np.asarray(h.bins), np.asarray(pairs)):
                 rec.fail(monitor="C01.h1.post", op="h1", symptom="bins of the supplied binning object not reported unchanged",
